@@ -1,6 +1,8 @@
 (* C20 — proofs about Model/UseCase.v against Spec/UseCaseSpec.v. *)
 From Verif Require Import Base.Prelude Model.UseCase Spec.UseCaseSpec.
 
+Arguments key_eqb : simpl never.
+
 (* ---------- small facts ---------- *)
 
 Lemma key_eqb_eq k k' : key_eqb k k' = true <-> k = k'.
@@ -67,6 +69,15 @@ Proof.
   induction l as [|[k' v] l IH]; simpl; intros H; [tauto|].
   destruct (N.eqb_spec k k') as [->|Hne]; [discriminate|].
   intros [E|Hin]; [congruence | exact (IH H Hin)].
+Qed.
+
+Lemma NoDup_snoc {A} (l : list A) x : NoDup l -> ~ In x l -> NoDup (l ++ [x]).
+Proof.
+  induction l as [|y l IH]; simpl; intros Hd Hn; [constructor; [tauto | constructor]|].
+  inversion Hd as [|a b Hy Hd']; subst. constructor.
+  - intros Hin. apply in_app_or in Hin. destruct Hin as [Hin|[Heq|[]]]; [exact (Hy Hin)|].
+    apply Hn. left. symmetry. exact Heq.
+  - apply IH; [exact Hd' | intros Hin; apply Hn; now right].
 Qed.
 
 (* ---------- the specification map ---------- *)
@@ -145,6 +156,24 @@ Qed.
 Lemma named_true n s : named n s = true <-> s_name s = n.
 Proof. unfold named. apply N.eqb_eq. Qed.
 
+Lemma same_ea_fields e a i : same_ea e a i = true -> i_ent i = e /\ i_actor i = a.
+Proof. unfold same_ea. rewrite andb_true_iff, !N.eqb_eq. tauto. Qed.
+
+Lemma same_ea_rebuild e a i x :
+  same_ea e a {| i_ent := i_ent i; i_actor := i_actor i; i_sups := x |} = same_ea e a i.
+Proof. reflexivity. Qed.
+
+(* the key (e', a', n') differs from (e, a, n) as soon as the entry of (e, a) is not one of (e', a') *)
+Lemma key_neq_ea e a n e' a' n' i :
+  same_ea e a i = true -> same_ea e' a' i = false -> key_eqb (e', a', n') (e, a, n) = false.
+Proof.
+  intros H1 H2. destruct (key_eqb (e', a', n') (e, a, n)) eqn:Ek; [|reflexivity].
+  apply key_eqb_eq in Ek. inversion Ek; subst. congruence.
+Qed.
+
+Lemma key_eqb_same_ea e a n n' : key_eqb (e, a, n') (e, a, n) = N.eqb n' n.
+Proof. unfold key_eqb. rewrite !N.eqb_refl. reflexivity. Qed.
+
 Lemma sup_find_has n l : has_name n l = match sup_find n l with Some _ => true | None => false end.
 Proof.
   induction l as [|x l IH]; simpl; [reflexivity|].
@@ -194,14 +223,11 @@ Proof.
     rewrite (N.eqb_sym e e'), (N.eqb_sym a a'), (N.eqb_sym (s_name u) n').
     destruct (N.eqb e' e), (N.eqb a' a), (N.eqb n' (s_name u)); reflexivity.
   - destruct (same_ea e a i) eqn:Ei; simpl.
-    + apply same_ea_true in Ei. unfold ea in Ei. inversion Ei as [[He Ha]]. clear Ei.
-      unfold same_ea at 1 3. simpl. unfold key_eqb.
-      destruct (N.eqb_spec (i_ent i) e') as [E1|E1], (N.eqb_spec (i_actor i) a') as [E2|E2]; simpl.
-      * rewrite sup_find_add. subst e' a'. rewrite !N.eqb_refl. simpl.
-        destruct (N.eqb n' (s_name u)); reflexivity.
-      * destruct (N.eqb_spec a' (i_actor i)); [congruence|]. rewrite andb_false_r. reflexivity.
-      * destruct (N.eqb_spec e' (i_ent i)); [congruence|]. reflexivity.
-      * destruct (N.eqb_spec e' (i_ent i)); [congruence|]. reflexivity.
+    + rewrite same_ea_rebuild. simpl. destruct (same_ea e' a' i) eqn:Ei'.
+      * destruct (same_ea_fields _ _ _ Ei) as [He Ha]. destruct (same_ea_fields _ _ _ Ei') as [He' Ha'].
+        assert (He2 : e' = e) by congruence. assert (Ha2 : a' = a) by congruence. clear He' Ha'. subst e' a'.
+        rewrite key_eqb_same_ea, sup_find_add. destruct (N.eqb n' (s_name u)); reflexivity.
+      * rewrite (key_neq_ea _ _ _ _ _ _ _ Ei Ei'). reflexivity.
     + rewrite IH. destruct (key_eqb (e', a', n') (e, a, s_name u)) eqn:Ek; [|reflexivity].
       apply key_eqb_eq in Ek. inversion Ek; subst. rewrite Ei. reflexivity.
 Qed.
@@ -213,7 +239,7 @@ Lemma sup_find_set n av n' l :
 Proof.
   induction l as [|x l IH]; simpl; [destruct (N.eqb n' n); reflexivity|].
   destruct (named n x) eqn:Ex; simpl.
-  - apply named_true in Ex. unfold named at 1 3. simpl. rewrite Ex, (N.eqb_sym n n').
+  - apply named_true in Ex. unfold named. simpl. rewrite Ex, (N.eqb_sym n n').
     destruct (N.eqb n' n); reflexivity.
   - rewrite IH. destruct (named n' x) eqn:En; [|reflexivity].
     apply named_true in En. destruct (N.eqb_spec n' n) as [->|_]; [|reflexivity].
@@ -228,15 +254,13 @@ Proof.
   induction l as [|i l IH]; simpl; [destruct (key_eqb (e', a', n') (e, a, n)); reflexivity|].
   destruct (same_ea e a i && has_name n (i_sups i)) eqn:Ei; simpl.
   - apply andb_true_iff in Ei. destruct Ei as [Ei Hn].
-    apply same_ea_true in Ei. unfold ea in Ei. inversion Ei as [[He Ha]]. clear Ei.
-    unfold same_ea at 1 3. simpl. unfold key_eqb.
-    destruct (N.eqb_spec (i_ent i) e') as [E1|E1], (N.eqb_spec (i_actor i) a') as [E2|E2]; simpl.
-    + rewrite sup_find_set. subst e' a'. rewrite !N.eqb_refl. simpl.
+    rewrite same_ea_rebuild. simpl. destruct (same_ea e' a' i) eqn:Ei'.
+    + destruct (same_ea_fields _ _ _ Ei) as [He Ha]. destruct (same_ea_fields _ _ _ Ei') as [He' Ha'].
+      assert (He2 : e' = e) by congruence. assert (Ha2 : a' = a) by congruence. clear He' Ha'. subst e' a'.
+      rewrite key_eqb_same_ea, sup_find_set.
       destruct (N.eqb_spec n' n) as [->|Hne]; [|reflexivity].
       rewrite sup_find_has in Hn. destruct (sup_find n (i_sups i)); [reflexivity | discriminate].
-    + destruct (N.eqb_spec a' (i_actor i)); [congruence|]. rewrite andb_false_r. reflexivity.
-    + destruct (N.eqb_spec e' (i_ent i)); [congruence|]. reflexivity.
-    + destruct (N.eqb_spec e' (i_ent i)); [congruence|]. reflexivity.
+    + rewrite (key_neq_ea _ _ _ _ _ _ _ Ei Ei'). reflexivity.
   - rewrite IH. destruct (same_ea e' a' i) eqn:Ei'; [|reflexivity].
     destruct (sup_find n' (i_sups i)) as [s|] eqn:Es; [|reflexivity].
     destruct (key_eqb (e', a', n') (e, a, n)) eqn:Ek; [|reflexivity].
@@ -281,26 +305,22 @@ Proof.
   inversion Hnd as [|x xs Hnotin Hnd']; subst.
   destruct (same_ea e a i && has_name n (i_sups i)) eqn:Ei; simpl.
   - apply andb_true_iff in Ei. destruct Ei as [Ei Hn].
-    apply same_ea_true in Ei.
     assert (Hrest : forall n0, listed l (e, a, n0) = None).
     { intros n0. apply listed_none. intros i' Hi'.
       destruct (same_ea e a i') eqn:E'; [|reflexivity].
-      apply same_ea_true in E'. exfalso. apply Hnotin. rewrite Ei, <- E'. apply in_map. exact Hi'. }
+      apply same_ea_true in E'. apply same_ea_true in Ei. exfalso. apply Hnotin. rewrite Ei, <- E'. apply in_map. exact Hi'. }
+    pose proof (sup_find_filter n n' (i_sups i)) as Hf.
     destruct (same_ea e' a' i) eqn:Ei'.
-    + apply same_ea_true in Ei'. rewrite Ei in Ei'. inversion Ei'; subst e' a'.
-      unfold key_eqb. rewrite !N.eqb_refl. simpl.
-      pose proof (sup_find_filter n n' (i_sups i)) as Hf.
+    + destruct (same_ea_fields _ _ _ Ei) as [He Ha]. destruct (same_ea_fields _ _ _ Ei') as [He' Ha'].
+      assert (He2 : e' = e) by congruence. assert (Ha2 : a' = a) by congruence. clear He' Ha'. subst e' a'.
+      rewrite key_eqb_same_ea.
       destruct (filter (fun x => negb (named n x)) (i_sups i)) as [|s0 ss] eqn:Efl.
       * simpl in Hf. rewrite Hrest. destruct (N.eqb n' n); [reflexivity|]. rewrite <- Hf. reflexivity.
-      * simpl. unfold same_ea at 1. simpl. apply same_ea_true in Ei. rewrite Ei.
-        change (if named n' s0 then Some s0 else sup_find n' ss) with (sup_find n' (s0 :: ss)).
-        rewrite Hf. destruct (N.eqb n' n); [apply Hrest | reflexivity].
-    + assert (Hk : key_eqb (e', a', n') (e, a, n) = false).
-      { destruct (key_eqb (e', a', n') (e, a, n)) eqn:Ek; [|reflexivity].
-        apply key_eqb_eq in Ek. inversion Ek; subst. apply same_ea_true in Ei. congruence. }
-      rewrite Hk.
+      * cbn [listed]. rewrite same_ea_rebuild, Ei'. cbn [i_sups]. rewrite Hf.
+        destruct (N.eqb n' n); [apply Hrest | reflexivity].
+    + rewrite (key_neq_ea _ _ _ _ _ _ _ Ei Ei').
       destruct (filter (fun x => negb (named n x)) (i_sups i)) as [|s0 ss]; [reflexivity|].
-      simpl. unfold same_ea at 1. simpl. unfold same_ea in Ei'. rewrite Ei'. reflexivity.
+      cbn [listed]. rewrite same_ea_rebuild, Ei'. reflexivity.
   - rewrite (IH Hnd'). destruct (same_ea e' a' i) eqn:Ei'; [|reflexivity].
     destruct (sup_find n' (i_sups i)) as [s|] eqn:Es; [|reflexivity].
     destruct (key_eqb (e', a', n') (e, a, n)) eqn:Ek; [|reflexivity].
@@ -489,7 +509,7 @@ Proof.
   - apply andb_true_iff in E. destruct E as [E _].
     apply same_ea_true in E. unfold ea in E. inversion E as [[He Ha]]. rewrite He, N.eqb_refl. simpl.
     destruct (filter (fun x => negb (named n x)) (i_sups i)); simpl; [reflexivity|].
-    rewrite He, N.eqb_refl. reflexivity.
+    rewrite ?He, N.eqb_refl. reflexivity.
   - rewrite IH. reflexivity.
 Qed.
 
@@ -552,6 +572,9 @@ Qed.
 Lemma parse_list_render d : parse_list (render d) = Some (data_list d).
 Proof. unfold parse_list, render. rewrite parse_dump_render. reflexivity. Qed.
 
+Lemma split_acq_render d : split_acq (render d) = (None, render d).
+Proof. unfold render. destruct (data_list d) as [|i l]; reflexivity. Qed.
+
 (* ---------- the invariant ---------- *)
 
 Definition thread_op (s : st) (t : N) : option uop :=
@@ -597,20 +620,19 @@ Proof.
     rewrite (active_thread_op s t) by (intros t' u' d' H; exact (proj2 (inv_snap _ _ I _ _ _ H))).
     rewrite (inv_pend _ _ I t).
     destruct (thread_op s t) as [u0|] eqn:Et; simpl.
-    + rewrite (inv_pend _ _ I t), Et. split; [reflexivity | exact I].
+    + split; [reflexivity | exact I].
     + unfold thread_op in Et.
       destruct (hold s) as [[[t' u'] d']|] eqn:Eh; simpl.
       * (* blocked *)
         destruct (N.eqb_spec t t') as [->|Hne]; [discriminate|].
-        rewrite (inv_pend _ _ I t). unfold thread_op. rewrite Eh.
-        destruct (N.eqb_spec t t'); [congruence|]. rewrite Et. split; [reflexivity|].
+        split; [reflexivity|].
         destruct I as [I1 I2 I3 I4 I5 I6]. constructor; simpl; auto.
-        -- intros t0 u0 d0 H. rewrite Eh in H. inversion H; subst.
+        -- intros t0 u0 d0 H. inversion H; subst.
            destruct (I4 _ _ _ Eh) as [Hd Hw]. split; [exact Hd|].
            rewrite assoc_N_app, Hw. simpl. destruct (N.eqb_spec t0 t); [congruence | reflexivity].
-        -- rewrite map_app. simpl. apply NoDup_app_comm. simpl. constructor; [|exact I5].
+        -- rewrite map_app. simpl. apply NoDup_snoc; [exact I5|].
            apply assoc_N_none_notin. exact Et.
-        -- intros t0. unfold thread_op. simpl. rewrite Eh. specialize (I6 t0). unfold thread_op in I6. rewrite Eh in I6.
+        -- intros t0. unfold thread_op. simpl. specialize (I6 t0). unfold thread_op in I6. rewrite Eh in I6.
            rewrite assoc_N_app.
            destruct (N.eqb_spec t0 t) as [->|Hne0].
            ++ destruct (N.eqb_spec t t'); [congruence|]. rewrite Et. simpl. rewrite N.eqb_refl. reflexivity.
@@ -618,7 +640,7 @@ Proof.
               destruct (assoc_N t0 (wait s)); [reflexivity|]. simpl.
               destruct (N.eqb_spec t0 t); [congruence | reflexivity].
       * (* parked *)
-        rewrite (inv_pend _ _ I t). unfold thread_op. rewrite Eh, Et. split; [reflexivity|].
+        split; [reflexivity|].
         destruct I as [I1 I2 I3 I4 I5 I6]. constructor; simpl; auto.
         -- intros t0 u0 d0 H. inversion H; subst. split; [reflexivity | exact Et].
         -- intros t0. unfold thread_op. simpl. specialize (I6 t0). unfold thread_op in I6. rewrite Eh in I6.
@@ -636,7 +658,7 @@ Proof.
     assert (Hiso : eqb_infos (others (ent_of u) (data_list (apply_uop (store s) u))) (others (ent_of u) (m_last m)) = true).
     { rewrite (inv_last _ _ I), data_list_apply, others_apply. apply eqb_infos_refl. }
     destruct (wait s) as [|[t2 u2] w] eqn:Ew; simpl.
-    + rewrite Hp. rewrite parse_list_render, (denotes_ok _ _ Hwf Hag), Hiso. simpl.
+    + rewrite Hp, split_acq_render. rewrite parse_list_render, (denotes_ok _ _ Hwf Hag), Hiso. simpl.
       split; [reflexivity|].
       destruct I as [I1 I2 I3 I4 I5 I6]. constructor; simpl; auto.
       * discriminate.
@@ -651,7 +673,7 @@ Proof.
       { rewrite assoc_N_remove. destruct (N.eqb_spec t2 t'); [congruence|].
         rewrite (inv_pend _ _ I t2). unfold thread_op. rewrite Eh, Ew.
         destruct (N.eqb_spec t2 t'); [congruence|]. simpl. rewrite N.eqb_refl. reflexivity. }
-      rewrite Hp2. rewrite parse_list_render, (denotes_ok _ _ Hwf Hag), Hiso. simpl.
+      cbn [split_acq]. rewrite Hp2. rewrite parse_list_render, (denotes_ok _ _ Hwf Hag), Hiso. simpl.
       split; [reflexivity|].
       destruct I as [I1 I2 I3 I4 I5 I6]. rewrite Ew in I5. simpl in I5.
       inversion I5 as [|x xs Hn2 Hd2]; subst.
@@ -710,7 +732,7 @@ Proof.
   - destruct out as [|ob rest]; [exact H|].
     destruct ob; try exact H.
     + destruct (assoc_N t (m_pend m)) as [u|]; [|exact H].
-      destruct rest as [|[] d]; simpl; try (destruct (parse_list _); simpl; rewrite H; reflexivity).
+      destruct (split_acq rest) as [acq dump]. destruct (parse_list dump); simpl; rewrite H; reflexivity.
     + destruct rest; exact H.
   - destruct out as [|[] [|? ?]]; simpl; exact H.
   - destruct (parse_list out); exact H.
